@@ -2,3 +2,4 @@ pub mod engine;
 pub mod conv;
 pub mod alpha;
 pub mod roots;
+pub mod fmt_templates;
